@@ -201,6 +201,7 @@ func c01Menu() []namedSeg {
 	add("F1097/255", "frame", ref.TypedFrame(1097, 255, validTimestampFill))
 	add("F1127/256", "frame", ref.TypedFrame(1127, 256, validTimestampFill))
 	add("F1087/1023", "frame", ref.TypedFrame(1087, 1023, validTimestampFill))
+	add("F1019/211", "frame", ref.TypedFrame(1019, 211, fillA)) // leader d3 00 d3
 	add("NMEA", "junk", nmea())
 	add("UBX", "junk", ubx())
 	add("junk1", "junk", []byte{0x55})
